@@ -221,8 +221,12 @@ def parseLiteralFails (scalar : String) (v : Value) : Option Bool :=
   else
     -- custom scalar built from SDL: `parse_literal = _untyped_literal` (/repo a2b8a10): every literal is accepted -
     -- scalar and enum literals by their `.value`, `null`, list and object literals converted (JSON-like scalars)
-    -- a variable anywhere inside has no `.value`: the conversion raises, reported as an invalid literal
-    some v.hasVar
+    -- a variable inside stands for its value; at validation time no values are known and it converts to `None`
+    -- (proposed_fixes/C06-H7; before: the conversion raised, reported as an invalid literal). A bare variable is
+    -- never handed to `_check_scalar`.
+    match v with
+    | .var _ => some true
+    | _ => some false
 
 /-- `_check_scalar(node)`: errors added (0/1), or `none` = crash -/
 def checkScalar (s : SchemaD) (ti : TI) (v : Value) : Option Nat :=
